@@ -43,7 +43,8 @@ def un_setup(ctx):
         if accepts[i]:
             produced[i] = ctx_.fresh(f"adapted_by_member{i}", z3.IntSort())
             return produced[i]
-        raise PyRaise(ExcVal(["ValueError", "TypeError"][i % 2], origin=f"member{i}"))
+        # a rejecting member may fail with any exception class (float(10**400) is an OverflowError, a missing key a KeyError ...): the Union must still try the others
+        raise PyRaise(ExcVal(["ValueError", "TypeError", "OverflowError", "KeyError"][(i + (0 if val_is_str else 2)) % 4], origin=f"member{i}"))
 
     def sort_subtypes(ctx_, args, kwargs):
         order = ctx_.choose(2, "sorted-order")  # any permutation is allowed by its contract; two are explored
